@@ -44,7 +44,7 @@ def run(F, rep, rule, crate, what):
     rep.floor(rule + " left-shift sites on program integers (%s)" % crate, n, 3)
 
 
-REM = re.compile(r"core::num::<impl (i32|i128)>::(checked|wrapping|overflowing|unchecked|strict)_rem$")
+REM = re.compile(r"core::num::<impl (i32|i128)>::(checked|wrapping|overflowing|unchecked|strict)_rem(_euclid)?$")
 
 
 def run_rem(F, rep, rule, crate, what):
